@@ -6,24 +6,40 @@ import Compress.XFlate.WriterSpec
 import Compress.Proofs.Meta
 import Compress.Proofs.MetaLocate
 import Compress.Proofs.MetaSilent
+import Compress.Proofs.XWData
+import Compress.Proofs.XWDecode
+import Compress.Proofs.XWOpen
 
 namespace Compress.Proofs.XFlateStream
 open Compress Compress.XFlate
+
+/-- the compressor contract `ZChunkOK` (restricted to byte-aligned contexts,
+    see WriterSpec) is satisfiable: compress/flate's empty sync flush fulfils it. -/
+theorem zchunkOK_syncMarker : ZChunkOK [0,0,0,255,255] [] := XWShape.zchunkOK_syncMarker
 
 /-- **C06.** Whatever configuration, whatever Write/Flush schedule: if Close
     succeeds (sink never failed, oracle consumed consistently) and the compressor
     kept its contract on every chunk, then the RFC 1951 specification decodes the
     emitted bytes to exactly the written data, consuming every bit, with the
-    final-block bit only in the last block. -/
+    final-block bit only in the last block.
+    -- STATEMENT ADJUSTED: hypothesis `hz` added.  The oracle is otherwise free to
+    -- answer a compressor call with xflate's own `closed` error, which the model
+    -- cannot tell from a successful Close: oracle = [reset, {zflush, err := closed}],
+    -- ops = [flush 0] ends with err = closed, bad = false, an empty sink, and
+    -- `Flate.decode [] = unexpectedEOF`.  compress/flate never returns that error.
+    -- (`ZChunkOK` itself was also adjusted, see WriterSpec.) -/
 theorem plain_deflate (crc : List UInt8 → Nat) (level chunk index : Int) (hasConf : Bool)
     (oracle : List ZEv) (ops : List WOp) (s0 : XWState)
-    (h0 : newWriter level chunk index hasConf {} oracle = some s0) :
+    (h0 : newWriter level chunk index hasConf {} oracle = some s0)
+    (hz : ∀ ev ∈ oracle, ev.err ≠ some .closed) :
     let s := (runW crc s0 ops).1
     s.err = some .closed → s.bad = false →
     (∀ c ∈ chunksOf s.zlog [] [], ZChunkOK c.1 c.2) →
     Flate.decode s.sink.got =
       { out := (dataOf s.zlog).toArray, verdict := .ok (8 * s.sink.got.length) } := by
-  sorry
+  intro s he hb hc
+  obtain ⟨rgs, tr, foot, hf⟩ := XWShape.closed_shape crc level chunk index hasConf oracle ops s0 h0 hz he hb
+  exact XWShape.fin_decode crc s rgs tr foot hf hc
 
 /-- the data the compressor accepted is the data `Write` reported as accepted:
     `InputOffset` at the end equals its length. -/
@@ -32,19 +48,80 @@ theorem data_accounted (crc : List UInt8 → Nat) (level chunk index : Int) (has
     (h0 : newWriter level chunk index hasConf {} oracle = some s0) :
     let s := (runW crc s0 ops).1
     s.bad = false → s.inOff = (dataOf s.zlog).length := by
-  sorry
+  intro s hb
+  rcases XWShape.da_runW crc ops s0 (XWShape.da_newWriter level chunk index hasConf {} oracle s0 h0) with h | h
+  · rw [hb] at h; cases h
+  · simpa using h
 
 /-- **C05 (index).** Under the same hypotheses, `Reader.Reset`'s parsing of the
     emitted bytes succeeds and reconstructs exactly the records the writer
     accumulated (chunks, index blocks, footer), for the real CRC-32 or any other
-    checksum function. -/
+    32-bit checksum function.
+    -- STATEMENT ADJUSTED: five hypotheses added.
+    -- * `hz` (the compressor never returns xflate's `closed` error): as for
+    --   `plain_deflate`; without it `err = closed` does not mean that Close ran.
+    -- * `hcrc` (the checksum fits 32 bits): the writer stores only the low four
+    --   bytes of `crc body`, the reader compares `le32` of them with the full value.
+    -- * `hflush` (a compressor Flush emits at least one byte; compress/flate always
+    --   emits the sync marker): otherwise FALSE — oracle = [reset, {zflush,
+    --   emitted := []}, reset], ops = [flush 1, close] closes with bad = false and
+    --   `chunksOf = []` (so the size hypothesis is vacuous), but the index holds a
+    --   record of compressed size 0, which `decodeIndex` rejects (`cs ≤ 4`).
+    -- * the two size bounds: `AppendRecord` refuses sums above `maxI64`, the
+    --   writer ignores that refusal (`getD`), the reader reports corruption;
+    --   `readVLI` also rejects values above `maxI64`. -/
 theorem index_roundtrip (crc : List UInt8 → Nat) (level chunk index : Int) (hasConf : Bool)
     (oracle : List ZEv) (ops : List WOp) (s0 : XWState)
-    (h0 : newWriter level chunk index hasConf {} oracle = some s0) :
+    (h0 : newWriter level chunk index hasConf {} oracle = some s0)
+    (hz : ∀ ev ∈ oracle, ev.err ≠ some .closed)
+    (hcrc : ∀ l, crc l < 2 ^ 32) :
     let s := (runW crc s0 ops).1
     s.err = some .closed → s.bad = false →
     (∀ c ∈ chunksOf s.zlog [] [], 4 < c.1.length) →
+    (∀ p ∈ s.zlog, p.1.kind = .zflush → p.1.emitted ≠ []) →
+    s.sink.got.length < 2 ^ 63 → (dataOf s.zlog).length < 2 ^ 63 →
     ∃ r, openIndex .fixed crc s.sink.got = .ok r ∧ r.recs = s.allRecs := by
-  sorry
+  intro s he hb hc hflush hg hd
+  obtain ⟨rgs, tr, foot, hf⟩ := XWShape.closed_shape crc level chunk index hasConf oracle ops s0 h0 hz he hb
+  exact XWShape.fin_open crc hcrc s rgs tr foot hf hc hflush hg hd
+
+/-! the bitwise IEEE CRC-32 of the model satisfies `hcrc`. -/
+
+theorem crc32_go_lt : ∀ (k c : Nat), c < 2 ^ 32 → crc32Byte.go k c < 2 ^ 32
+  | 0, c, h => by simpa [crc32Byte.go] using h
+  | k+1, c, h => by
+    unfold crc32Byte.go
+    apply crc32_go_lt k
+    split
+    · exact Nat.xor_lt_two_pow (by omega) (by decide)
+    · omega
+
+theorem crc32Byte_lt (c : Nat) (b : UInt8) (h : c < 2 ^ 32) : crc32Byte c b < 2 ^ 32 := by
+  unfold crc32Byte
+  apply crc32_go_lt
+  have := b.toNat_lt
+  exact Nat.xor_lt_two_pow h (by omega)
+
+theorem crc32_foldl_lt : ∀ (l : List UInt8) (c : Nat), c < 2 ^ 32 → l.foldl crc32Byte c < 2 ^ 32
+  | [], _, h => h
+  | b :: l, c, h => crc32_foldl_lt l _ (crc32Byte_lt c b h)
+
+theorem crc32IEEE_lt (l : List UInt8) : crc32IEEE l < 2 ^ 32 := by
+  unfold crc32IEEE
+  exact Nat.xor_lt_two_pow (crc32_foldl_lt l _ (by decide)) (by decide)
+
+/-- `index_roundtrip` for the real checksum. -/
+theorem index_roundtrip_crc32 (level chunk index : Int) (hasConf : Bool)
+    (oracle : List ZEv) (ops : List WOp) (s0 : XWState)
+    (h0 : newWriter level chunk index hasConf {} oracle = some s0)
+    (hz : ∀ ev ∈ oracle, ev.err ≠ some .closed) :
+    let s := (runW crc32IEEE s0 ops).1
+    s.err = some .closed → s.bad = false →
+    (∀ c ∈ chunksOf s.zlog [] [], 4 < c.1.length) →
+    (∀ p ∈ s.zlog, p.1.kind = .zflush → p.1.emitted ≠ []) →
+    s.sink.got.length < 2 ^ 63 → (dataOf s.zlog).length < 2 ^ 63 →
+    ∃ r, openIndex .fixed crc32IEEE s.sink.got = .ok r ∧ r.recs = s.allRecs :=
+  index_roundtrip crc32IEEE level chunk index hasConf oracle ops s0 h0 hz crc32IEEE_lt
 
 end Compress.Proofs.XFlateStream
+
